@@ -284,6 +284,7 @@ type fileDigest struct {
 	Path        string `yaml:"path"`
 	Size        int64  `yaml:"size"`
 	ModTime     int64  `yaml:"mtime"`
+	Hash        string `yaml:"hash,omitempty"`
 	OverlayHash string `yaml:"overlay_hash,omitempty"`
 }
 
@@ -314,10 +315,17 @@ func digestFilesWithOverlay(paths []string, overlay map[string][]byte) ([]fileDi
 		if err != nil {
 			return nil, fmt.Errorf("stat file %q: %w", path, err)
 		}
+		// Size and mtime alone miss edits that keep both (coarse or preserved
+		// timestamps), so the content is part of the digest.
+		hash, err := digestFile(path)
+		if err != nil {
+			return nil, fmt.Errorf("digest file %q: %w", path, err)
+		}
 		digests = append(digests, fileDigest{
 			Path:    path,
 			Size:    info.Size(),
 			ModTime: info.ModTime().UnixNano(),
+			Hash:    hash,
 		})
 	}
 
